@@ -263,6 +263,10 @@ def main():
             if models[i] is not None and not cmp(reals[i], models[i]):
                 disagreements.append(i)
 
+    if os.environ.get("VERIF_DEBUG"):
+        for i in disagreements[:int(os.environ["VERIF_DEBUG"])]:
+            log("DBG-DISAGREE %s\n   real : %s\n   model: %s" % (lines[i], reals[i], models[i]))
+
     # ---- oracle on every case
     failures = []  # (index, key, msg)
     for i, c in enumerate(cases):
